@@ -573,7 +573,22 @@ impl Sim {
             Op::ExtraPut(t, k, v) => self.do_extra(i, *t, k, Some(v)),
             Op::ExtraDel(t, k) => self.do_extra(i, *t, k, None),
             Op::TakeRef(id) => self.take_ref(i, id),
-            Op::Get(_) | Op::Has(_) => None,
+            Op::Get(_) | Op::Has(_) | Op::Stats => None,
+            Op::Sync => {
+                // a sync changes nothing observable
+                self.stats.inc("op_sync");
+                let r = real::catch(|| self.store.as_ref().unwrap().sync());
+                match r {
+                    Ok(Ok(())) => {
+                        let o = self.observe();
+                        self.last_obs = Some(o);
+                        let ctx = OpCtx { kind: CtxKind::Other, event: None, desc: "sync".into(), also: &["C04", "C15"] };
+                        self.model_agrees(i, &ctx)
+                    }
+                    Ok(Err(e)) => Some(self.finding(i, "sync-failed", &[], format!("harness: sync failed: {}", real::err_name(&e.inner)))),
+                    Err(p) => Some(self.finding(i, "sync-panicked", &["C04"], format!("sync panicked: {p}"))),
+                }
+            }
         };
         if !op.is_modifier() {
             // modifiers apply to the very next op only
